@@ -15,7 +15,7 @@ PROPERTY = "C06"
 LEVEL = "exploration"
 BUDGET_S = {"quick": 50, "thorough": 700}
 FLOOR = {"quick": 4000, "thorough": 40000}
-MUST_REACH = ("native_fixpoints_judged", "foreign_convergence_judged", "config_level_judged")
+MUST_REACH = ("native_fixpoints_judged", "foreign_convergence_judged", "config_level_judged", "structures_compared")
 RULE = ("objects of every exported class from the supported grammars: ports (5 operators, names/numbers), protocols (all "
         "names, 0..255), options (flag/log tokens), wildcards, addresses and address-group members in every spelling, IOS "
         "and NX-OS address groups with/without sequence numbers, remarks with arbitrary printable words (leading digits, "
@@ -60,6 +60,30 @@ def _meaning(cls_name, text, kwargs):
     return None
 
 
+def _struct(cls_name, text, kwargs):
+    """Reader view of numbering and naming: what must survive X(t).line (None when the reader does not apply)."""
+    platform = kwargs.get("platform", "ios")
+    try:
+        if cls_name in ("AddrGroup", "addrgroups"):
+            grp = reader.read_addrgroup(text, platform)
+            return (grp["name"], [(m["seq"], m["addr"]) for m in grp["members"]])
+        if cls_name == "AddressAg":
+            mem = reader.read_group_member(text, platform)
+            return (mem["seq"], mem["addr"])
+        if cls_name in ("Acl", "acls"):
+            acl = reader.read_acl(text, platform)
+            return (acl["name"], acl["type"], [(i["kind"], i["seq"]) for i in acl["items"]])
+        if cls_name == "AceGroup":
+            return [(i["kind"], i["seq"]) for i in (reader.read_item(ln, kwargs.get("type", "extended"))
+                                                     for ln in text.split("\n") if ln.strip())]
+        if cls_name == "Remark":
+            rem = reader.read_remark(text)
+            return (rem["seq"], rem["text"])
+    except (reader.ReadError, ValueError, IndexError):
+        return None
+    return None
+
+
 def _diff(a, b, path=""):
     """First difference between two data() trees."""
     if type(a) != type(b):
@@ -92,6 +116,14 @@ def execute(ctx, case: dict) -> None:
         return
     r = _line(o1)
     d1 = _data(o1)
+    # sequence numbers, names and types of the input survive the first parse (reader on input vs rendering)
+    s_in, s_out = _struct(cls_name, text, kwargs), _struct(cls_name, r, kwargs)
+    if s_in is not None and s_out is not None:
+        ctx.count("structures_compared")
+        if s_in != s_out:
+            ctx.violation(case, "sequence numbers / names / entries of the input do not survive parsing and rendering",
+                          {"input": str(s_in)[:400], "rendered": str(s_out)[:400]})
+            return
     try:
         o2 = _build(cls_name, r, dict(kwargs))
     except Exception as ex:  # pylint: disable=broad-except
@@ -320,7 +352,7 @@ def run(ctx) -> None:
         done += 1
         kw = case["kwargs"]
         ctx.judged(sig=(case["cls"], kw.get("platform"), case["native"], _spelling(case), kw.get("port_nr"),
-                        kw.get("protocol_nr"), kw.get("indent"), bool(kw.get("group_by")), kw.get("type")),
+                        kw.get("protocol_nr"), kw.get("indent"), bool(kw.get("group_by")), kw.get("type"), case.get("pre")),
                    nontrivial=True, sample=case if done % 500 == 1 else None)
     ctx.count("cases", done)
 
